@@ -665,6 +665,7 @@ func (x *txnCtx) readOp(op *Op) {
 	case "agg":
 		col, ok := m.Col(op.Col)
 		if !ok || !col.Kind.Numeric() || want == nil {
+			x.txn.Count() // the model's selection is initialised: so must the library's be
 			return
 		}
 		nk := nums[col.Kind]
@@ -692,7 +693,8 @@ func (x *txnCtx) readOp(op *Op) {
 			}
 		}
 		if !exactSum {
-			return // float aggregates whose result depends on evaluation order are not asserted
+			x.txn.Count() // (the selection is taken all the same)
+			return        // float aggregates whose result depends on evaluation order are not asserted
 		}
 		sum := uint64(0)
 		for i, v := range vals {
